@@ -183,6 +183,12 @@ func c04Run(c c04Case) []mc.Finding {
 	}
 	// the live object's other owner references diverge from the cached ones
 	switch c.LiveOwners {
+	case "taken-over":
+		// the parent's own controller reference is gone from the live object and another parent's stands in its
+		// place (released and adopted elsewhere since it was observed): the live list has exactly one entry, not ours
+		w.Sim.Edit(k, "n1", name, func(o map[string]interface{}) {
+			kit.Field(o, []interface{}{map[string]interface{}(kit.OwnerRef(kit.Thing, "q", "quid", true))}, "metadata", "ownerReferences")
+		})
 	case "added":
 		yo := kit.Obj(kit.Other, "n1", "y")
 		kit.Field(yo, "yuid", "metadata", "uid")
@@ -377,7 +383,7 @@ func c04Run(c c04Case) []mc.Finding {
 		if orphan && matches && !c.ChildDeleting && liveOK && err == nil {
 			bad("orphan-not-adopted", "a matching orphan was not adopted")
 		}
-		if hadOurs && !matches && !cachedDeleting && c.LiveParent == "same" && err == nil && !c.ChildDeleting {
+		if hadOurs && c.LiveOwners != "taken-over" && !matches && !cachedDeleting && c.LiveParent == "same" && err == nil && !c.ChildDeleting {
 			bad("not-released", "an owned object that stopped matching was not released")
 		}
 	}
@@ -607,8 +613,11 @@ func TestVerifC04(t *testing.T) {
 									}
 									// stale cache with respect to the object's OTHER owner references
 									if dl == "match" && !cd && cp == "alive" && lp == "same" && sel != "empty" {
-										for _, lo := range []string{"added", "removed"} {
+										for _, lo := range []string{"added", "removed", "taken-over"} {
 											if lo == "removed" && !strings.Contains(ow, "extra") {
+												continue
+											}
+											if lo == "taken-over" && ow != "ours" && ow != "ours+extra" {
 												continue
 											}
 											c2 := c
